@@ -49,6 +49,8 @@ pub struct FnSig {
     pub ret: Ty,
     /// the function contains a `while`/`loop` (directly or through callees): first Lean parameter is fuel
     pub fuel: bool,
+    /// type parameters (in order) and whether each needs an ordering (`K: Ord`)
+    pub generics: Vec<(String, bool)>,
 }
 
 #[derive(Clone, Debug)]
@@ -107,6 +109,8 @@ pub fn paren(s: &str) -> String {
 }
 
 pub struct Global {
+    /// struct name -> kept fields with their types
+    pub structs: HashMap<String, Vec<(String, Ty)>>,
     pub fns: HashMap<String, FnSig>,
     pub consts: HashMap<String, (Ty, String)>,
     pub ns: String,
@@ -136,6 +140,9 @@ pub struct FnCx<'g> {
     pub pass2: bool,
     /// inside a loop function: how a `return v` of the enclosing function is written
     pub in_loop_fn: bool,
+    /// binders / explicit arguments for the type parameters, repeated on every auxiliary function
+    pub generic_binders: String,
+    pub generic_args: String,
 }
 
 pub type K<'a> = &'a dyn Fn(&mut FnCx, Option<Val>) -> R<String>;
@@ -216,9 +223,17 @@ pub fn ret_payload(t: &Ty) -> Ty {
 pub fn sanitize(n: &str) -> String {
     // Lean keywords / prelude names that Rust identifiers may collide with
     match n {
-        "end" | "from" | "at" | "in" | "do" | "then" | "else" | "fun" | "show" | "have" | "open" | "prefix" | "where" | "with" | "by" | "if" | "let" | "match" | "namespace" | "section" | "variable" | "instance" | "structure" | "class" | "deriving" | "theorem" | "def" | "example" | "local" | "macro" | "syntax" | "mutual" | "rec" | "export" | "import" | "universe" | "set_option" | "attribute" | "private" | "protected" | "partial" | "unsafe" | "noncomputable" | "abbrev" | "axiom" | "opaque" | "inductive" | "extends" | "using" | "calc" | "suffices" | "obtain" | "fuel" | "e" => format!("{}_", n),
+        "end" | "from" | "at" | "in" | "do" | "then" | "else" | "fun" | "show" | "have" | "open" | "prefix" | "where" | "with" | "by" | "if" | "let" | "match" | "namespace" | "section" | "variable" | "instance" | "structure" | "class" | "deriving" | "theorem" | "def" | "example" | "local" | "macro" | "syntax" | "mutual" | "rec" | "export" | "import" | "universe" | "set_option" | "attribute" | "private" | "protected" | "partial" | "unsafe" | "noncomputable" | "abbrev" | "axiom" | "opaque" | "inductive" | "extends" | "using" | "calc" | "suffices" | "obtain" | "fuel" | "e" | "self" => format!("{}_", n),
         _ => n.to_string(),
     }
+}
+
+thread_local! {
+    pub static SELF_TY: std::cell::RefCell<Option<Ty>> = std::cell::RefCell::new(None);
+    /// names of the translated structs (for rust_ty)
+    pub static STRUCTS: std::cell::RefCell<Vec<String>> = std::cell::RefCell::new(vec![]);
+    /// type parameters of the function being translated: name -> Some(closure type) for `F: Fn(..) -> ..`
+    pub static GENERICS: std::cell::RefCell<HashMap<String, Option<Ty>>> = std::cell::RefCell::new(HashMap::new());
 }
 
 pub fn rust_ty(t: &syn::Type) -> R<Ty> {
@@ -243,11 +258,25 @@ pub fn rust_ty(t: &syn::Type) -> R<Ty> {
                 }
                 Err(format!("unsupported: generic argument {} of {}", i, name))
             };
+            if p.path.segments.len() == 1 {
+                let g = GENERICS.with(|g| g.borrow().get(&name).cloned());
+                if let Some(g) = g {
+                    return Ok(match g {
+                        Some(f) => f,
+                        None => Ty::Param(name),
+                    });
+                }
+            }
+            if STRUCTS.with(|st| st.borrow().contains(&name)) {
+                return Ok(Ty::Struct(name));
+            }
             match name.as_str() {
+                "Self" => SELF_TY.with(|t| t.borrow().clone()).ok_or_else(|| "unsupported: Self outside an impl".to_string()),
                 "bool" => Ok(Ty::Bool),
                 "char" => Ok(Ty::Char),
                 "str" | "String" => Ok(Ty::Str),
                 "Vec" => Ok(Ty::list(arg(0)?)),
+                "BitVec" => Ok(Ty::list(Ty::Bool)),
                 "Option" => Ok(Ty::opt(arg(0)?)),
                 "Result" => {
                     // crate::errors::Result<T>, io::Result<T>  (one type argument)
@@ -290,6 +319,58 @@ fn find_fn<'a>(file: &'a syn::File, item: &Item) -> R<&'a syn::ItemFn> {
     }
 }
 
+fn find_method<'a>(file: &'a syn::File, ty: &str, name: &str) -> R<&'a syn::ImplItemFn> {
+    for i in &file.items {
+        if let syn::Item::Impl(im) = i {
+            if im.trait_.is_some() {
+                continue;
+            }
+            let tn = match &*im.self_ty {
+                syn::Type::Path(p) => path_last(&p.path),
+                _ => continue,
+            };
+            if tn != ty {
+                continue;
+            }
+            for it in &im.items {
+                if let syn::ImplItem::Fn(f) = it {
+                    if f.sig.ident == name {
+                        return Ok(f);
+                    }
+                }
+            }
+        }
+    }
+    Err(format!("unsupported: method {}::{} not found", ty, name))
+}
+
+fn translate_struct(file: &syn::File, name: &str, keep: &[&str]) -> R<(Vec<(String, Ty)>, String)> {
+    for i in &file.items {
+        if let syn::Item::Struct(st) = i {
+            if st.ident != name {
+                continue;
+            }
+            let mut fields = vec![];
+            let mut text = format!("/-- `struct {}` (kept fields: {}) -/\nstructure {} where\n", name, keep.join(", "), name);
+            for f in &st.fields {
+                let fname = f.ident.as_ref().ok_or("unsupported: tuple struct")?.to_string();
+                if !keep.contains(&fname.as_str()) {
+                    continue;
+                }
+                let t = rust_ty(&f.ty)?;
+                text.push_str(&format!("  {} : {}\n", sanitize(&fname), lean_ty(&t)));
+                fields.push((fname, t));
+            }
+            if fields.len() != keep.len() {
+                return Err(format!("unsupported: struct {} lacks some of the expected fields", name));
+            }
+            text.push_str("  deriving DecidableEq, Repr, Inhabited\n\n");
+            return Ok((fields, text));
+        }
+    }
+    Err(format!("unsupported: struct {} not found", name))
+}
+
 pub fn translate_unit(src: &Path, unit: &Unit, g: &mut Global) -> R<String> {
     let path = src.join(unit.file);
     let text = fs::read_to_string(&path).map_err(|e| format!("unsupported: cannot read {}: {}", path.display(), e))?;
@@ -324,7 +405,64 @@ pub fn translate_unit(src: &Path, unit: &Unit, g: &mut Global) -> R<String> {
                 out.push_str(&text);
                 out.push('\n');
             }
-            Item::Method(..) => return Err("unsupported: methods".into()),
+            Item::Region(func_name, new_name, params, skip, result, result_ty) => {
+                let func = find_fn(&file, &Item::Fn(func_name))?;
+                let mut stmts: Vec<syn::Stmt> = vec![];
+                let mut seen_for = false;
+                for st in &func.block.stmts {
+                    if let syn::Stmt::Local(l) = st {
+                        let pat = match &l.pat {
+                            syn::Pat::Type(pt) => &*pt.pat,
+                            p => p,
+                        };
+                        if let syn::Pat::Ident(pi) = pat {
+                            if skip.contains(&pi.ident.to_string().as_str()) {
+                                continue;
+                            }
+                        }
+                    }
+                    stmts.push(st.clone());
+                    if matches!(st, syn::Stmt::Expr(syn::Expr::ForLoop(_), _)) {
+                        seen_for = true;
+                        break;
+                    }
+                }
+                if !seen_for {
+                    return Err(format!("unsupported: region of {}: no top-level for loop", func_name));
+                }
+                let header = format!("fn {}({}) -> Result<{}> {{ Ok({}) }}", new_name, params, result_ty, result);
+                let mut synthetic: syn::ItemFn = syn::parse_str(&header).map_err(|e| format!("internal: region header: {}", e))?;
+                let tail = synthetic.block.stmts.pop().unwrap();
+                synthetic.block.stmts = stmts;
+                synthetic.block.stmts.push(tail);
+                let sig = signature(g, &synthetic, unit.module)?;
+                g.fns.insert(new_name.to_string(), sig);
+                let (text, fuel) = translate_fn(g, &synthetic, unit.module)?;
+                g.fns.get_mut(&new_name.to_string()).unwrap().fuel = fuel;
+                out.push_str(&format!("/- region of `{}`: its statements up to and including the first top-level `for` loop,\n   without the `let`s of {:?} (these are parameters here) -/\n", func_name, skip));
+                out.push_str(&text);
+                out.push('\n');
+            }
+            Item::Struct(name, keep) => {
+                let (fields, text) = translate_struct(&file, name, keep)?;
+                out.push_str(&text);
+                g.structs.insert(name.to_string(), fields);
+                STRUCTS.with(|st| st.borrow_mut().push(name.to_string()));
+            }
+            Item::Method(ty, name) => {
+                let m = find_method(&file, ty, name)?;
+                SELF_TY.with(|t| *t.borrow_mut() = Some(Ty::Struct(ty.to_string())));
+                let func = syn::ItemFn { attrs: vec![], vis: syn::Visibility::Inherited, sig: m.sig.clone(), block: Box::new(m.block.clone()) };
+                let key = format!("{}::{}", ty, name);
+                let mut sig = signature(g, &func, unit.module)?;
+                sig.lean = format!("SmVerif.Gen.{}.{}.{}", unit.module, ty, sanitize(name));
+                g.fns.insert(key.clone(), sig);
+                let (text, fuel) = translate_fn_named(g, &func, unit.module, Some(ty))?;
+                g.fns.get_mut(&key).unwrap().fuel = fuel;
+                SELF_TY.with(|t| *t.borrow_mut() = None);
+                out.push_str(&text);
+                out.push('\n');
+            }
         }
     }
     out.push_str(&format!("end SmVerif.Gen.{}\n", unit.module));
@@ -397,10 +535,45 @@ fn const_expr(e: &syn::Expr, t: &Ty) -> R<String> {
 }
 
 pub fn signature(_g: &Global, f: &syn::ItemFn, module: &str) -> R<FnSig> {
-    if !f.sig.generics.params.is_empty() {
-        // lifetimes only are fine
-        if f.sig.generics.params.iter().any(|p| !matches!(p, syn::GenericParam::Lifetime(_))) {
-            return unsupported("generic function", f.sig.span());
+    let mut generics: Vec<(String, bool)> = vec![];
+    GENERICS.with(|g| g.borrow_mut().clear());
+    // first the plain type parameters, then the closure-typed ones (their bounds mention the former)
+    for pass in 0..2 {
+        for gp in &f.sig.generics.params {
+            let tp = match gp {
+                syn::GenericParam::Lifetime(_) => continue,
+                syn::GenericParam::Type(tp) => tp,
+                _ => return unsupported("const generic", f.sig.span()),
+            };
+            let name = tp.ident.to_string();
+            let mut fn_bound = None;
+            let mut ord = false;
+            for b in &tp.bounds {
+                if let syn::TypeParamBound::Trait(tb) = b {
+                    let seg = tb.path.segments.last().unwrap();
+                    match seg.ident.to_string().as_str() {
+                        "Fn" | "FnMut" | "FnOnce" => fn_bound = Some(seg.arguments.clone()),
+                        "Ord" | "PartialOrd" => ord = true,
+                        "Eq" | "PartialEq" | "Copy" | "Clone" | "Sized" => {}
+                        other => return unsupported(&format!("trait bound {}", other), f.sig.span()),
+                    }
+                }
+            }
+            match (pass, fn_bound) {
+                (0, None) => {
+                    GENERICS.with(|g| g.borrow_mut().insert(name.clone(), None));
+                    generics.push((name, ord));
+                }
+                (1, Some(syn::PathArguments::Parenthesized(pa))) => {
+                    let args = pa.inputs.iter().map(rust_ty).collect::<R<Vec<_>>>()?;
+                    let ret = match &pa.output {
+                        syn::ReturnType::Default => Ty::Unit,
+                        syn::ReturnType::Type(_, t) => rust_ty(t)?,
+                    };
+                    GENERICS.with(|g| g.borrow_mut().insert(name.clone(), Some(Ty::Fun(args, Box::new(ret)))));
+                }
+                _ => {}
+            }
         }
     }
     let mut params = vec![];
@@ -414,14 +587,17 @@ pub fn signature(_g: &Global, f: &syn::ItemFn, module: &str) -> R<FnSig> {
                 let mut_ref = matches!(&*pt.ty, syn::Type::Reference(r) if r.mutability.is_some());
                 params.push(Param { name, ty: rust_ty(&pt.ty)?, mut_ref });
             }
-            syn::FnArg::Receiver(r) => return unsupported("self parameter", r.span()),
+            syn::FnArg::Receiver(r) => {
+                let t = SELF_TY.with(|t| t.borrow().clone()).ok_or_else(|| "unsupported: self outside an impl".to_string())?;
+                params.push(Param { name: "self".into(), ty: t, mut_ref: r.mutability.is_some() && r.reference.is_some() });
+            }
         }
     }
     let ret = match &f.sig.output {
         syn::ReturnType::Default => Ty::Unit,
         syn::ReturnType::Type(_, t) => rust_ty(t)?,
     };
-    Ok(FnSig { lean: format!("SmVerif.Gen.{}.{}", module, sanitize(&f.sig.ident.to_string())), params, ret, fuel: false })
+    Ok(FnSig { lean: format!("SmVerif.Gen.{}.{}", module, sanitize(&f.sig.ident.to_string())), params, ret, fuel: false, generics })
 }
 
 /// Lean return type of a translated function
@@ -442,7 +618,11 @@ pub fn lean_ret(sig: &FnSig) -> String {
 }
 
 pub fn translate_fn(g: &Global, f: &syn::ItemFn, module: &str) -> R<(String, bool)> {
-    let sig = signature(g, f, module)?;
+    translate_fn_named(g, f, module, None)
+}
+
+pub fn translate_fn_named(g: &Global, f: &syn::ItemFn, module: &str, owner: Option<&str>) -> R<(String, bool)> {
+    let sig = signature(g, f, module)?; // also installs the function's type parameters for rust_ty
     let mut u = Unifier::new();
     let mut result = String::new();
     let mut fuel = false;
@@ -452,7 +632,10 @@ pub fn translate_fn(g: &Global, f: &syn::ItemFn, module: &str) -> R<(String, boo
         }
         let mut cx = FnCx {
             g,
-            lean_name: sanitize(&f.sig.ident.to_string()),
+            lean_name: match owner {
+                Some(o) => format!("{}.{}", o, sanitize(&f.sig.ident.to_string())),
+                None => sanitize(&f.sig.ident.to_string()),
+            },
             ret: sig.ret.clone(),
             mut_params: sig.params.iter().filter(|p| p.mut_ref).map(|p| p.name.clone()).collect(),
             scopes: vec![HashMap::new()],
@@ -464,6 +647,8 @@ pub fn translate_fn(g: &Global, f: &syn::ItemFn, module: &str) -> R<(String, boo
             uses_fuel: false,
             pass2: pass == 1,
             in_loop_fn: false,
+            generic_binders: sig.generics.iter().map(|(n, ord)| format!(" {{{} : Type}} [DecidableEq {}]{}", n, n, if *ord { format!(" (lt_{} : {} → {} → Bool)", n, n, n) } else { String::new() })).collect(),
+            generic_args: sig.generics.iter().filter(|(_, o)| *o).map(|(n, _)| format!(" lt_{}", n)).collect(),
         };
         for p in &sig.params {
             cx.declare(&p.name, p.ty.clone());
@@ -489,6 +674,7 @@ pub fn translate_fn(g: &Global, f: &syn::ItemFn, module: &str) -> R<(String, boo
             text.push('\n');
         }
         let mut ps = String::new();
+        ps.push_str(&cx.generic_binders);
         if fuel {
             ps.push_str(" (fuel : Nat)");
         }
